@@ -129,7 +129,7 @@ def _guards(nf, fn, cfg, nid, qual):
     # de-duplicate, drop logger / None tests
     res = []
     for g in out:
-        if "logger" in g or g in res or g in ("True", "not(False)"):
+        if "logger" in g or g in res or g in ("True", "not(False)", "1", "not(0)"):
             continue
         res.append(g)
     return res
